@@ -64,7 +64,12 @@ func VerifC13Keys() {
 		key = vaxis.Key{Keycode: k}
 	}
 	deckpam, decckm := zzverif.Bool("deckpam"), zzverif.Bool("decckm")
-	enc := encodeXterm(key, deckpam, decckm)
+	// through the widget's real entry point: Update consults the child's modes and writes
+	// the encoding to the pty
+	vt := verifModel(4, 3)
+	vt.mode.deckpam, vt.mode.decckm = deckpam, decckm
+	vt.Update(key)
+	enc := string(zzverif.FileLog(vt.pty))
 	zzverif.Assert(enc != "", "key-is-encoded")
 	seqs := verifParseAll(enc)
 	if key.Keycode == vaxis.KeyEsc {
